@@ -12,6 +12,11 @@ CHECKS = {
         text="Theorem C01_sound (no axioms): for every function body, oracle (condition values, raising calls, handler matches, swallowing context managers, iterator lengths) and fuel, a statement whose marker executes is never among the statements the model reports dead. Every run: generated modules using every construct of the quantifier are analysed by pyscn and executed by CPython under the same oracles; (1) no executed marker lies in a reported dead range (the property itself), (2) Flow.v's dead statements = lines covered by pyscn's ranges, (3) PySem.v traces = CPython traces.",
         note="Flow.v is a hand-written abstraction of cfg_builder.go+reachability.go+dead_code.go (statement level: finding ranges are compared per statement line, block boundaries are not modelled); generators/async scheduling/exceptions raised by non-marker code are outside the semantics; tree-sitter and ast_builder.go are exercised end-to-end, not modelled.",
         design="5 C01, 4.2, 4.5"),
+    "C18": dict(
+        technique="Coq proof over a model of service/file_reader.go (walk, pattern matching, dedupe) and of the doublestar subset; skip list/extensions/default patterns regenerated from Go source; differential correspondence (vm_compute) against the real FileReader on real directory trees, doublestar itself, and the pyscn CLI",
+        text="Theorems (Props/C18.v, no axioms): files analysed = exactly the Python files under the targets matching an include and no exclude pattern (path inside the target; slash-less pattern by name at any depth), run fails iff a target is missing, each file once for any target list, same files for any spelling/cwd of the same places, default excludes apply at any depth; pinned-tree behaviour refuted (F7, F7b, F18, all repaired by fix: commits).",
+        note="Hand-written model; doublestar modelled on the pat_ok subset (no classes/alternatives/escapes), filepath.Rel/Walk order assumed, Clean/Join/Abs modelled; no symlinks, ASCII names; correspondence sampled (exhaustive small-scope for glob).",
+        design="5 C18"),
     "C19": dict(
         technique="Coq proof of gate_exact (exit = 0 <-> gate_spec) over a model of cmd/pyscn/check.go:runCheck; constants and comparison operators regenerated from the Go AST; CLI correspondence on boundary projects x flag/config/cwd combinations",
         text="Coq model of runCheck (selection, flag-else-config-else-10 threshold, severity gate, cycle limit, issueCount arithmetic, exit code) with gate_exact : exit = 0 <-> gate_spec proved for all inputs; clones_never_fail; printed lines = violations; monotonicity. Correspondence: generated boundary projects x flag/config/cwd combinations on the real `pyscn check`, against the spec, against `pyscn analyze --json`, and against the model.",
@@ -32,6 +37,11 @@ CHECKS = {
         text="C04_functions_partial (NoDup names -> registry = every def exactly once with dotted name and line), C04_classes_lines, C04_classes_names_partial; C04_functions_refuted_same_name and C04_classes_names_refuted_nested are the two recorded findings. Each run compares every generated def/class (any nesting) with pyscn's rows: name, StartLine, EndLine, exactly once; one __main__ row.",
         note="The full statement is false on the current tree for two input classes (known findings F3b, F20), each matched narrowly. End lines and decorators are checked by the harness (python3 ast as independent reference), not modelled.",
         design="5 C04"),
+    "C06": dict(
+        technique="Coq proofs: isolation of a failing file in the per-file service loops (any analyse function, list and position), exit status in {0,1}, exponential lower bound for calculateMaxDepth (refutes the time clause: finding F21); malformed-input stream through the real binary for the un-modelled part",
+        text="Theorems C06_isolation, C06_results_are_per_file, C06_exit_status, C06_depth_exponential_refuted (no axioms). Each run: ~35-40 malformed contents (syntax errors, truncations, bit flips, binary, encodings, CR/CRLF, long lines, deep parentheses) analysed alone and mixed into a project of good files: exit status in {0,1}, no panic/goroutine trace, time bound, report sections of the good files identical to the baseline; 4 formats written; nesting depth up to 160/320; calculateMaxDepth vs its Coq model on random graphs.",
+        note="partial: tree-sitter, Go runtime (stack, memory), wall clock and OS are not modelled; the malformed stream is a test, not a proof. F29 (panic on elif without body) repaired; F21 (exponential longest-chain search) recorded as open known finding.",
+        design="5 C06"),
     "C11": dict(
         technique="Coq proof: reachability-closure specification of non-trivial SCCs with proved characterisation; literal Gallina model of circular_detector.go (Tarjan) and AddModule/AddDependency; proved certificate checker run on the implementation's outputs; exhaustive vm_compute equivalence on all digraphs <=4 modules; constants/decision expressions regenerated from Go source; differential correspondence against the tagged driver and the CLI",
         text="Theorems (Props/C11.v, no axioms): closure decides reachability; scc_spec = maximal mutually-reachable sets with >=2 members, pairwise disjoint, each once; same-cycle <=> mutual reachability; check_sccs accepts only the spec (all graphs, all outputs); Tarjan model = spec for every digraph on <=4 modules x 6 iteration orders (bounded); for all graphs the model's components have >=2 modules and are pairwise disjoint, count = #components, modules-in-cycles = sum of sizes, severity = documented table (partial). Every run: all digraphs <=4 modules, sampled (thorough: all 2^20) 5-module digraphs, random graphs to 60 modules and generated Python projects are run through the real detector/CLI and compared with the spec, the proved checker and the model.",
